@@ -40,7 +40,15 @@ RULE = ("(order) dependency graphs of 1-7 repositories over ids 0-9, random edge
         "move independently (one stays while another moves), exactly one per commit, or in lock-step; all pins in one "
         "DEPENDS file (entries in either order) or a file per component; sometimes a declared component that is not "
         "supplied; repository names (hence the analysis order) and the supply order shuffled; the report is made twice "
-        "on the same collection.  Non-trivial = a cycle or >= 2 repositories with a dependency (order); at "
+        "on the same collection.  REF FILES: 20% of the two-repository histories and 30% of the collections are read through "
+        "the library's own GitRepo (GitRepo.iter_refs / _iter_packed_refs / _iter_refs_files behind make_branch_refs_map and "
+        "make_buildtags_map) from '.git' directories the harness writes for EVERY repository of the collection (parents and "
+        "components): layouts of property C06's generator (harness/props/c06.py gen_layout: refs packed / loose / both with a "
+        "stale packed value, annotated build tags with '^' peeled lines after and between the branch entries, lightweight "
+        "tags, foreign refs, header variants, CRLF) or plainly the state after `git gc` (all packed, sorted, annotated tags); "
+        "the model and the oracle keep working with the intended heads and tags (confirmed per layout by the reference reader "
+        "c06.ref_semantics), and the oracle also compares the heads / tag commits the library reads with them.  "
+        "Non-trivial = a cycle or >= 2 repositories with a dependency (order); at "
         "least one included_at registration (bump).")
 TRUSTED_BASE = [
     "harness-side mock git objects (commit / tree / blob / refs) stand in for GitPython; the harness renders the tags "
@@ -49,6 +57,11 @@ TRUSTED_BASE = [
     "expressions are re-read from the source, fail closed); pins come from a JSON DEPENDS file, saved versions from a "
     "VERSION file read by harness-side _read_saved_build_num_from_file / parse_buildtag overrides (the documented "
     "extension points)",
+    "ref-file cases: the library's GitRepo subclassed without git.Repo.__init__ (GitPython is not installed): git_dir / remotes "
+    "/ commit() come from the harness mock, get_ref_commit (GitPython's part of reading a loose ref) is a stand-in; the ref "
+    "files are real files read by the library; layout generator, writer and reference reader are those of property C06's "
+    "check (harness/props/c06.py, imported read-only), the Coq model of the reader and its theorems are coq/C06/Refs.v / "
+    "PropsRefs.v - this property's model receives the heads and tags the files denote, it does not read the texts itself",
     "the finished RGraph of every component (RBuild iids renumbered order-preservingly per repository, parent_rbuilds, "
     "bn_map, RBranch membership) is read from the implementation's own run and handed to the model as input: the "
     "construction of a single repository's RGraph is property C06's subject (for a component that pins sub-components "
@@ -390,6 +403,8 @@ def as_multi(case):
     "branches"}; the older two-repository form {"comp": spec, "par": spec with "pin"} is read as such a collection"""
     if "repos" in case:
         return case
+    if "disk" in case:
+        return dict(as_multi({k: v for k, v in case.items() if k != "disk"}), disk=case["disk"])
     par = dict(case["par"], name="par", comps=["comp"], files="one")
     par["commits"] = [dict({k: v for k, v in c.items() if k != "pin"},
                            pins={} if c.get("pin") is None else {"comp": c["pin"]}) for c in case["par"]["commits"]]
@@ -442,6 +457,111 @@ class MockRepo:
         for n, h in self.refs.items():
             if any(n.startswith(p) for p in prefixes):
                 yield n, h
+
+
+# ---- repositories whose refs are real files.  The mock above overrides iter_refs, so the library's own reader of
+# '.git/packed-refs' and of the loose ref files (GitRepo._iter_packed_refs / _iter_refs_files / iter_refs, behind
+# make_branch_refs_map and make_buildtags_map) would never run: which commit is the head of a parent branch and which
+# commits carry the build tags -- the inputs of everything this property says -- would come from the harness.  A case
+# with "disk" (a layout seed, or {repository name: layout} in the corpus) lets EVERY repository of the collection
+# (parents and components) be the library's GitRepo over a '.git' directory written by the harness.  The layouts are
+# those of property C06's check (harness/props/c06.py, imported read-only: gen_layout = refs packed / loose / both
+# with stale packed values, annotated tags with '^' peeled lines after and between the branch entries, lightweight
+# tags, foreign refs, CRLF ...; ref_semantics = the independent reference reader; the Coq model of the reader and
+# its theorems are coq/C06/Refs.v, PropsRefs.v).  The heads and tags the model and the oracle of THIS property work
+# with are the intended ones; [disk_layout] checks with ref_semantics that the files say exactly that.
+def _c06():
+    from harness.props import c06
+    return c06
+
+
+def repo_sha(name, cid):
+    return hashlib.sha1(f"{name}:{cid}".encode()).hexdigest()
+
+
+def intended_refs(spec):
+    """(branches [(full ref name, hexsha)], tags [(tag name, hexsha)]) a repository spec stands for"""
+    name = spec["name"]
+    branches = [("refs/remotes/origin/" + b, repo_sha(name, head)) for b, head in spec["branches"]]
+    tags = [(tag_name(t), repo_sha(name, c["id"])) for c in spec["commits"] for t in c.get("tags", [])]
+    return branches, tags
+
+
+def packed_layout(branches, tags, annotated=True):
+    """the '.git' directory right after `git gc` / `git pack-refs --all`: everything in packed-refs, sorted,
+    build tags annotated (tag object + '^' line with the tagged commit)"""
+    lines = [_c06().PACK_HEADER]
+    for n, sha in sorted(branches + [("refs/tags/" + t, sha) for t, sha in tags]):
+        if n.startswith("refs/tags/") and annotated:
+            lines += [hashlib.sha1(("tag:" + n + sha).encode()).hexdigest() + " " + n, "^" + sha]
+        else:
+            lines.append(sha + " " + n)
+    return {"packed": "\n".join(lines) + "\n", "loose": [], "seed": None}
+
+
+def disk_layout(case, spec):
+    """the ref files of one repository of a disk case, or None when its refs cannot be laid out (repeated names)"""
+    import random
+    d = case.get("disk")
+    if d is None:
+        return None
+    branches, tags = intended_refs(spec)
+    if len({n for n, _ in branches}) != len(branches) or len({t for t, _ in tags}) != len(tags):
+        return None
+    if isinstance(d, dict):
+        disk = d.get(spec["name"])
+        if disk is None:
+            return None
+    elif d == "gc":
+        disk = packed_layout(branches, tags)
+    else:
+        rng = random.Random(f"{d}:{spec['name']}")
+        if rng.random() < 0.3:
+            disk = packed_layout(branches, tags, annotated=rng.random() < 0.8)
+        else:
+            disk = _c06().gen_layout(rng, branches, tags, d)
+    sem = _c06().ref_semantics(disk)
+    want = dict(branches)
+    want.update({"refs/tags/" + t: sha for t, sha in tags})
+    if sem is None or any(sem.get(k) != v for k, v in want.items()):
+        raise AssertionError("harness: generated layout does not say what the case says")
+    return disk
+
+
+def disk_repo_class(ghist):
+    class _Resolved:
+        def __init__(self, hexsha):
+            self.hexsha = hexsha
+
+    class DiskRepo(ghist.GitRepo):
+        """the library's GitRepo over a real '.git' directory (no git.Repo.__init__: GitPython is not installed);
+        commit objects and the list of remote branches come from the mock, get_ref_commit (GitPython's part of
+        reading a loose ref) is a stand-in, the ref files are real and are read by the library"""
+        def __init__(self, root, mock, name, disk):        # noqa
+            self._git_dir = os.path.join(root, name, ".git")
+            os.makedirs(self._git_dir, exist_ok=True)
+            self._mock = mock
+            _c06().write_disk(self._git_dir, disk)
+            self._resolved = {n: resolved for n, _c, resolved in disk["loose"]}
+
+        git_dir = property(lambda self: self._git_dir)
+        working_dir = property(lambda self: self._git_dir)
+        remotes = property(lambda self: self._mock.remotes)
+        commits = property(lambda self: self._mock.commits)
+
+        def commit(self, hexsha):
+            return self._mock.by_hex[hexsha]
+
+        def get_ref_commit(self, ref_name):
+            return _Resolved(self._resolved[ref_name])
+
+        def close(self):
+            pass
+
+        def __del__(self):
+            pass
+
+    return DiskRepo
 
 
 def branch_key(name):
@@ -834,24 +954,38 @@ def gen_cases(rng, tier):
     for _ in range(3000 if big else 400):
         cases.append(gen_order(rng))
     for _ in range(9000 if big else 1000):
-        cases.append(gen_bump(rng))
+        cases.append(with_disk(rng, gen_bump(rng), 0.2))
     for _ in range(3000 if big else 450):
-        cases.append(gen_multi(rng))
+        cases.append(with_disk(rng, gen_multi(rng), 0.3))
     return cases
+
+
+def with_disk(rng, case, p):
+    """a share of the collections is read through the library's own GitRepo from ref files (every repository of the
+    collection: parents and components); "gc" = everything packed, annotated build tags (the state after `git gc`)"""
+    if rng.random() < p:
+        case["disk"] = "gc" if rng.random() < 0.15 else rng.randrange(1 << 30)
+        try:
+            for r in as_multi(case)["repos"]:
+                disk_layout(case, r)
+        except AssertionError:
+            case.pop("disk")               # names that cannot be laid out as files (never seen so far)
+    return case
 
 
 def search_cases(rng, tier):
     out = [gen_order(rng) for _ in range(600)]
-    out += [gen_bump(rng, mode="domain") for _ in range(1800)]
-    out += [gen_multi(rng, mode="domain") for _ in range(700)]
+    out += [with_disk(rng, gen_bump(rng, mode="domain"), 0.2) for _ in range(1800)]
+    out += [with_disk(rng, gen_multi(rng, mode="domain"), 0.3) for _ in range(700)]
     return out
 
 
 def kind(case):
+    disk = ":ref-files" if case.get("disk") is not None else ""
     if case["k"] == "bump" and "repos" in case:
         n = max(len(r.get("comps", [])) for r in case["repos"])
-        return "bump:collection" + (":multi-component" if n > 1 else "")
-    return case["k"]
+        return "bump:collection" + (":multi-component" if n > 1 else "") + disk
+    return case["k"] + disk
 
 
 # ------------------------------------------------------------------ implementation
@@ -911,7 +1045,20 @@ def _run_order(case):
 
 
 def _run_bump(case):
+    if case.get("disk") is None:
+        return _run_bump_in(case, None)
+    import shutil
+    import tempfile
+    root = tempfile.mkdtemp(prefix="c07-")
+    try:
+        return _run_bump_in(case, root)
+    finally:
+        shutil.rmtree(root, ignore_errors=True)
+
+
+def _run_bump_in(case, root):
     import logging
+    from ak import ghist
     from ak.ghist import ProjectRepo, ReposCollection
     logging.disable(logging.CRITICAL)
 
@@ -935,13 +1082,32 @@ def _run_bump(case):
               "_read_saved_build_num_from_file": read_saved, "parse_buildtag": classmethod(parse_buildtag)}
     specs = as_multi(case)["repos"]
     names = [r["name"] for r in specs]
+    disks = {r["name"]: disk_layout(case, r) for r in specs} if root is not None else {}
+    refs_seen = [] if root is not None else None
     try:
-        mocks, objs = {}, {}
+        mocks, objs, gitrepos = {}, {}, {}
         for r in specs:
             cls = type("R_" + r["name"], (ProjectRepo,),
                        {"_COMPONENTS_VERSIONS_LOCATIONS": {c: dep_file(r, c) for c in declared(r)}, **common})
             mocks[r["name"]] = MockRepo(r["name"], r)
-            objs[r["name"]] = cls(r["name"], mocks[r["name"]], "origin")
+            gitrepos[r["name"]] = mocks[r["name"]]
+            if disks.get(r["name"]) is not None:
+                gitrepos[r["name"]] = disk_repo_class(ghist)(root, mocks[r["name"]], r["name"], disks[r["name"]])
+            objs[r["name"]] = cls(r["name"], gitrepos[r["name"]], "origin")
+            if root is not None:
+                # what the library reads from the ref files (a ProjectRepo object of its own): the heads of the
+                # remote branches, the commits of the tags
+                if disks.get(r["name"]) is None:
+                    refs_seen.append(None)
+                    continue
+                try:
+                    g = gitrepos[r["name"]]
+                    heads = sorted([k, v] for k, v in cls(r["name"], g, "origin").make_branch_refs_map().items())
+                    tgs = sorted([n[len("refs/tags/"):], h if h is not None else g.get_ref_commit(n).hexsha]
+                                 for n, h in g.iter_refs("refs/tags/"))
+                    refs_seen.append(["ok", heads, tgs])
+                except Exception as e:  # noqa
+                    refs_seen.append(["err", SX.exc_name(e)])
         rc = ReposCollection(objs)
         data = dict(rc.make_reports_data(SEARCH_TEXT))
 
@@ -961,7 +1127,14 @@ def _run_bump(case):
     except BaseException as e:  # noqa
         if type(e).__name__ == "Hang":
             raise
-        return {"r": ["err", SX.exc_name(e)]}
+        return {"r": ["err", SX.exc_name(e)], **({"refs": refs_seen} if refs_seen is not None else {})}
+    out = _observe_bump(specs, names, data, rc, vers, again)
+    if refs_seen is not None:
+        out["refs"] = refs_seen
+    return out
+
+
+def _observe_bump(specs, names, data, rc, vers, again):
     bnames = {r["name"]: [b[0] for b in sorted_branches(r)] for r in specs}
     FOREIGN = 1000000      # an RBuild object that does not belong to the component's graph (same iid or not)
     try:
@@ -1292,13 +1465,14 @@ def _oracle_bump(case, obs):
     dom = [(pc, po) for pc, po in pairs(case, obs) if in_domain(pc)]
     if not dom:
         return []
+    pre = _oracle_refs(case, obs)
     if r[0] == "err":
-        return [("report-raises", f"make_reports_data raised {r[1]}")]
+        return pre + [("report-raises", f"make_reports_data raised {r[1]}")]
     if r[0] != "ok":
         return [("report-unreadable", f"the report carries a build number that is no (major, minor, build) triple, or an "
                                       f"included_at entry that names no branch of a repository of the collection: {r[1]}")]
     multi = len(as_multi(case)["repos"]) > 2
-    seen, res = set(), []
+    seen, res = {sig for sig, _ in pre}, list(pre)
     if obs.get("again", [True, True]) != [True, True]:
         seen.add("report-history-dependent")
         res.append(("report-history-dependent",
@@ -1311,6 +1485,40 @@ def _oracle_bump(case, obs):
                 seen.add(sig)
                 res.append((sig, f"[repository {pc['names'][0]}, its component {pc['names'][1]}] {msg}" if multi else msg))
     return res
+
+
+def _oracle_refs(case, obs):
+    """disk cases: the heads of the branches and the commits of the tags the library reads from the ref files are the
+    ones the repository has (the generator's intention, confirmed by the reference reader c06.ref_semantics)"""
+    if obs.get("refs") is None:
+        return []
+    out = []
+    for spec, seen in zip(as_multi(case)["repos"], obs["refs"]):
+        if seen is None:
+            continue
+        if seen[0] != "ok":
+            out.append(("refs-raise", f"repository {spec['name']}: reading the ref files raised {seen[1]}"))
+            continue
+        branches, tags = intended_refs(spec)
+        cid = {repo_sha(spec["name"], c["id"]): c["id"] for c in spec["commits"]}
+        want = sorted([n[len("refs/remotes/"):], sha] for n, sha in branches)
+        got = [x for x in seen[1] if x[0] in {w[0] for w in want}]
+        if got != want:
+            bad = [[n, cid.get(h, h)] for n, h in got if [n, h] not in want]
+            out.append(("branch-head-wrong", f"repository {spec['name']}: make_branch_refs_map gives (branch, commit) {bad[:3]}, "
+                        f"the ref files say {[[n, cid[h]] for n, h in want][:6]}"))
+        wt = sorted([t, sha] for t, sha in tags)
+        gt = [x for x in seen[2] if x[0] in {w[0] for w in wt}]
+        if gt != wt:
+            bad = [[n, cid.get(h, h)] for n, h in gt if [n, h] not in wt]
+            out.append(("tag-commit-wrong", f"repository {spec['name']}: the build tags resolve to (tag, commit) {bad[:3]}, "
+                        f"the ref files say {[[n, cid[h]] for n, h in wt][:6]}"))
+    seen_sig, uniq = set(), []
+    for sig, msg in out:
+        if sig not in seen_sig:
+            seen_sig.add(sig)
+            uniq.append((sig, msg))
+    return uniq
 
 
 def _oracle_pair(case, obs):
@@ -1481,6 +1689,17 @@ def shrink_candidates(case):
     # drop a repository nothing pins, a component from a pin list, a commit that nothing refers to (a head-less
     # tip), a branch, or a matching flag
     case = as_multi(case)
+    if case.get("disk") is not None:
+        yield {k: v for k, v in case.items() if k != "disk"}          # the same collection on the in-memory mock
+        if case["disk"] != "gc" and not isinstance(case["disk"], dict):
+            yield dict(case, disk="gc")
+        for c in shrink_candidates({k: v for k, v in case.items() if k != "disk"}):
+            if c.get("k") == "bump" and "repos" in c:
+                c = dict(c, disk=case["disk"])
+                if isinstance(case["disk"], dict):
+                    continue                    # explicit layouts belong to the unshrunk refs
+                yield c
+        return
     repos = case["repos"]
     pinned = {c for r in repos for c in r.get("comps", [])}
     for i, r in enumerate(repos):
@@ -1540,7 +1759,10 @@ LEVEL_TEXT = ("Partial. FULL (unbounded, Coq): repo_order, repo_order_supply, re
               "component and three levels), not a global theorem; all theorems about bumps and included_at are stated per "
               "component (index cx) of a parent with any number of components; distinct keys / build numbers within a branch are guards. For pins that are not "
               "ancestor-ordered the clause 'first build of each parent branch' is false (open finding) resp. tested only "
-              "(independent reachability oracle on the raw histories).")
+              "(independent reachability oracle on the raw histories). ONLY TESTED as well: that the branch heads and the commits "
+              "of the build tags the analysis starts from are the ones the repositories' ref files denote (a share of the "
+              "collections is read through the library's GitRepo from packed-refs / loose ref files written by the harness; the "
+              "reader itself is modelled and proved about in coq/C06/Refs.v, PropsRefs.v, not here).")
 LEVEL_NOTE = ("Trusted: Coq kernel + vm_compute; fidelity of the hand model (checked by correspondence, not proved); the mock git "
               "objects; the component's RGraph taken from the implementation as model input.")
 DESIGN_REF = "DESIGN.md section 8, C07"
